@@ -361,5 +361,10 @@ def oracle(ctx):
     sets = [{'c.container': t} for _, _, _, t in cases[:(300 if ctx.thorough else 60)]]
     pick = tcases if ctx.thorough else rnd.sample(tcases, min(len(tcases), 60))
     sets += [{rnd.choice(['t.', 'tpl@i.']) + ty: text} for ty, key, kind, flag, hist, text in pick]
+    # … and the naming keys beside a unit that refers to the named one: the name a referrer sees is the effective one, wherever the last
+    # assignment was made (each pair twice: the cut between main file and drop-in falls at a random place)
+    for ty, key, hist, text, ok, what in hmeta:
+        t0, t1 = text.split('--- r.container\n')
+        sets += [{'n.' + ty: t0, 'r.container': t1}] * 2
     filespell.compare(ctx, sets, ['dropin', 'two', 'two-dirs', 'two-dirs-rev', 'two-dirs', 'template-dir'], 'C15 histories over drop-ins')
     ctx.log(f'oracle: {res.oracle_evals} evaluations, {len(res.oracle_failures)} failures')
